@@ -74,11 +74,31 @@ _PRED = {
 }
 
 
+def _bool01(fn, ref, depth=0):
+    """if the integer `ref` is a truth value widened to 0/1 (zext of an i1, or and/or of such values) return an i1-like ref
+    whose truth is ref != 0: the i1 itself, or the and/or instruction (cond_atoms takes those apart)"""
+    i = fn.get(ref) if isinstance(ref, str) else None
+    if i is None or depth > 6:
+        return None
+    if i.op == 'zext' and i.x.get('sbits') == 1:
+        return i.o[0]
+    if i.op in ('and', 'or') and all(_bool01(fn, o, depth + 1) is not None for o in i.o):
+        return _Bool01(fn, i)
+    return None
+
+
+class _Bool01(str):
+    """marker: an and/or over 0/1 integers, to be read as the boolean and/or of its operands"""
+    def __new__(cls, fn, ins):
+        o = str.__new__(cls, ins.ref)
+        return o
+
+
 def cond_atoms(fn, ref, truth, depth=0):
     """atoms (a conjunction) known when i1 value `ref` equals `truth`; plus blocks whose
     dominating facts also hold (for the phi encoding of && / ||): returns (atoms, via_blocks)"""
     c = const_int(ref)
-    if c is not None or depth > 6:
+    if c is not None or depth > 14:
         return [], []
     ins = fn.get(ref)
     if ins is None:
@@ -88,6 +108,19 @@ def cond_atoms(fn, ref, truth, depth=0):
         # icmp ne (zext i1 x), 0  /  icmp ne (trunc ...)...
         bz = const_int(b)
         ai = fn.get(a)
+        if bz == 0 and ins.pred in ('ne', 'eq') and ai is not None and ai.op in ('and', 'or') and ai.ty != 'i1':
+            # truth values combined with the bitwise operators: (a != NULL) & (n <= cap), x | (y & z) on 0/1 integers
+            t = truth if ins.pred == 'ne' else (not truth)
+            bs = [_bool01(fn, o) for o in ai.o]
+            if all(x is not None for x in bs) and ((ai.op == 'and' and t) or (ai.op == 'or' and not t)):
+                out_a, out_v = [], []
+                for x in bs:
+                    a1, v1 = cond_atoms(fn, x, t, depth + 1)
+                    out_a += a1
+                    out_v += v1
+                return out_a, out_v
+            if all(x is not None for x in bs):
+                return [], []
         if bz == 0 and ins.pred in ('ne', 'eq') and ai is not None and ai.op == 'zext' and ai.x.get('sbits') == 1:
             t = truth if ins.pred == 'ne' else (not truth)
             return cond_atoms(fn, ai.o[0], t, depth + 1)
@@ -101,14 +134,22 @@ def cond_atoms(fn, ref, truth, depth=0):
         return [atom if truth else negate(atom)], []
     if ins.op == 'xor' and const_int(ins.o[1]) == 1:
         return cond_atoms(fn, ins.o[0], not truth, depth + 1)
+    if ins.op in ('and', 'or') and ins.ty != 'i1':
+        ops = [_bool01(fn, o) for o in ins.o]
+        if any(x is None for x in ops):
+            return [], []
+    else:
+        ops = list(ins.o)
     if ins.op == 'and' and truth:
-        a1, v1 = cond_atoms(fn, ins.o[0], True, depth + 1)
-        a2, v2 = cond_atoms(fn, ins.o[1], True, depth + 1)
+        a1, v1 = cond_atoms(fn, ops[0], True, depth + 1)
+        a2, v2 = cond_atoms(fn, ops[1], True, depth + 1)
         return a1 + a2, v1 + v2
     if ins.op == 'or' and not truth:
-        a1, v1 = cond_atoms(fn, ins.o[0], False, depth + 1)
-        a2, v2 = cond_atoms(fn, ins.o[1], False, depth + 1)
+        a1, v1 = cond_atoms(fn, ops[0], False, depth + 1)
+        a2, v2 = cond_atoms(fn, ops[1], False, depth + 1)
         return a1 + a2, v1 + v2
+    if ins.op in ('and', 'or') and ins.ty != 'i1':
+        return [], []
     if ins.op == 'trunc' and ins.ty == 'i1':
         # bool loaded as i8: value != 0
         return [('ne' if truth else 'eq', _k(ins.o[0]), '#0')], []
